@@ -111,6 +111,11 @@ static dbus_bool_t disable_mem_pools = FALSE;
 static dbus_bool_t backtrace_on_fail_alloc = FALSE;
 static dbus_bool_t malloc_cannot_fail = FALSE;
 static DBusAtomic n_blocks_outstanding = {0};
+#ifdef DBUS_VERIF_HOOKS
+/* verification hook: when >= 0, the allocation this many allocations after
+ * the next injected failure fails too (one shot) */
+static int verif_second_fail_gap = -1;
+#endif
 
 /** value stored in guard padding for debugging buffer overrun */
 #define GUARD_VALUE 0xdeadbeef
@@ -210,6 +215,14 @@ _dbus_set_fail_alloc_counter (int until_next_fail)
  *
  * @returns current counter value
  */
+#ifdef DBUS_VERIF_HOOKS
+void
+_dbus_verif_set_second_fail_gap (int gap)
+{
+  verif_second_fail_gap = gap;
+}
+#endif
+
 int
 _dbus_get_fail_alloc_counter (void)
 {
@@ -282,6 +295,14 @@ _dbus_decrement_fail_alloc_counter (void)
             fail_alloc_counter = fail_nth;
           else
             fail_alloc_counter = _DBUS_INT_MAX;
+
+#ifdef DBUS_VERIF_HOOKS
+          if (verif_second_fail_gap >= 0)
+            {
+              fail_alloc_counter = verif_second_fail_gap;
+              verif_second_fail_gap = -1;
+            }
+#endif
 
           n_failures_this_failure = 0;
 
